@@ -445,9 +445,50 @@ def check_copy_history(res: Result, dim, system, depth):
     res.sample({"kind": "copy_history", "sys": list(system), "events": COPY_EVENTS, "depth": depth})
 
 
+BIG = [2**53 + 1, 1700000000123456789, 2**62 + 3, 9007199254740993, 2**53 + 5, 2**60 - 1, 36028797018963969, 2**55 + 1]
+
+
+def check_big_integers(res: Result, dim, system):
+    """Integer-typed arrays holding values beyond 2**53 (timestamps, identifiers kept in a coordinate field): every element reached by
+    integer indexing, N-d indexing or iteration carries exactly the stored integers (compared as Python ints: a detour through
+    float64 rounds them)."""
+    for flavor in ("generic", "momentum"):
+        fnames = L.field_names(system, flavor)
+        for dt in (np.int64, np.uint64):
+            for shape in ((3,), (2, 2)):
+                n = int(np.prod(shape))
+                raw = np.zeros(n, dtype=[(f, dt) for f in fnames])
+                for j, f in enumerate(fnames):
+                    raw[f] = [BIG[(i + j) % len(BIG)] + i for i in range(n)]
+                arr = raw.reshape(shape).view(NPCLS[(flavor, dim)])
+                plain = raw.reshape(shape)
+                routes = [(f"arr[{idx}]", (lambda idx=idx: arr[idx]), idx) for idx in np.ndindex(*shape)] if len(shape) > 1 else [(f"arr[{i}]", (lambda i=i: arr[i]), (i,)) for i in range(n)] + [(f"arr[{i - n}]", (lambda i=i: arr[i - n]), (i,)) for i in range(n)]
+                if len(shape) == 1:
+                    routes += [(f"list(arr)[{i}]", (lambda i=i: list(arr)[i]), (i,)) for i in range(n)]
+                for rname, f, idx in routes:
+                    res.states += 1
+                    res.transitions += 1
+                    res.traces += 1
+                    res.evaluations += 1
+                    case = {"kind": "big_integers", "dim": dim, "sys": list(system), "flavor": flavor, "dtype": np.dtype(dt).name, "shape": list(shape), "expr": rname}
+                    cls = f"big_integers|{L.sysname(system)}|{np.dtype(dt).name}|{'index' if rname.startswith('arr') else 'iteration'}"
+                    try:
+                        el = f()
+                        got = [int(getattr(el, fn)) for fn in fnames]
+                    except Exception as e:  # noqa: BLE001
+                        res.violation(cls + "|raises", f"{rname} of an {np.dtype(dt).name} array raised {type(e).__name__}: {e}", case)
+                        continue
+                    want = [int(plain[fn][idx]) for fn in plain.dtype.names]
+                    if got != want:
+                        res.violation(cls, f"{rname}: element coordinates {got}, stored {want}", case)
+                    else:
+                        res.nontrivial += 1
+
+
 def run_shard(shard, tier):
     res = Result()
     if shard.get("kind") == "copy_history":
+        check_big_integers(res, shard["dim"], tuple(shard["sys"]))
         check_copy_history(res, shard["dim"], tuple(shard["sys"]), shard["depth"])
         return res
     if shard.get("kind") == "object_history":
@@ -459,6 +500,9 @@ def run_shard(shard, tier):
 
 def replay(case):
     res = Result()
+    if case.get("kind") == "big_integers":
+        check_big_integers(res, case["dim"], tuple(case["sys"]))
+        return res
     if case.get("kind") == "copy_history":
         check_copy_history(res, case["dim"], tuple(case["sys"]), len(case["history"]))
         return res
